@@ -87,6 +87,8 @@ def pure_eval(C, expr, st, fr, what):
     res = []
     for o in outs:
         if o.kind != 'ok':
+            if valid(C.assumptions(o.st, force=True), z3.BoolVal(False), 2000):
+                continue        # infeasible once the quantified facts are taken into account
             raise Unsupported('%s may raise %s' % (what, o.exc))
         for k, a in o.st.heap.items():
             if k in heap0 and not a.eq(heap0[k]):
@@ -261,6 +263,10 @@ def abs_range(C, args, st):
 # =============================================================================================
 # loop cutting
 
+import os as _os
+DEBUG = bool(_os.environ.get('PYVC_DEBUG'))
+
+
 class Muted:
     "context manager: obligations emitted inside go to a scratch collector"
     def __init__(self, ex):
@@ -270,11 +276,13 @@ class Muted:
         self.saved = self.ex.col
         self.ex.col = Collector()
         self.sites = dict(self.ex.site_counts)
+        self.ex.muted = getattr(self.ex, 'muted', 0) + 1
         return self.ex.col
 
     def __exit__(self, *a):
         self.ex.col = self.saved
         self.ex.site_counts = self.sites
+        self.ex.muted -= 1
 
 
 def fresh_like(C, v, base):
@@ -360,6 +368,18 @@ def store_indices(post, base):
     return idx
 
 
+class _Elem:
+    "marker: written at the loop element itself"
+    def eq(self, other):
+        return other is self
+
+    def __repr__(self):
+        return 'ELEM'
+
+
+ELEM = _Elem()
+
+
 class Writes:
     def __init__(self):
         self.heap = set()       # heap keys
@@ -380,7 +400,7 @@ class Writes:
                     self.at[k] = None
                 else:
                     for t in oi:
-                        if not any(t.eq(u) for u in self.at[k]):
+                        if not any((t is u) or (t is not ELEM and u is not ELEM and t.eq(u)) for u in self.at[k]):
                             self.at[k].append(t)
         self.heap |= other.heap
         self.locals.update(other.locals)
@@ -390,7 +410,7 @@ class Writes:
                       sum(len(v) if v is not None else -1 for v in self.at.values()))
 
 
-def diff_state(pre, post, live_fids, havoc_names=None):
+def diff_state(pre, post, live_fids, havoc_names=None, elem_term=None):
     w = Writes()
     for k, a in post.heap.items():
         o = pre.heap.get(k)
@@ -405,6 +425,10 @@ def diff_state(pre, post, live_fids, havoc_names=None):
             if idx is not None and havoc_names is not None:
                 ok = []
                 for t in idx:
+                    if elem_term is not None and t.eq(elem_term):
+                        if not any(u is ELEM for u in ok):
+                            ok.append(ELEM)
+                        continue
                     fc = free_consts(t)
                     if fc is None or (fc & havoc_names):
                         ok = None
@@ -425,7 +449,11 @@ def diff_state(pre, post, live_fids, havoc_names=None):
     for k, v in post.ghost.items():
         if isinstance(k, str) and k.startswith('g:'):
             o = pre.ghost.get(k)
-            if o is None or not same_sv(o, v):
+            if o is None:
+                # first touched inside the loop: a write only if it is no longer the initial symbol
+                if not (hasattr(v, 't') and z3.is_const(v.t) and v.t.decl().name() == 'g0_' + k[2:]):
+                    w.ghost.add(k)
+            elif not same_sv(o, v):
                 w.ghost.add(k)
     for lid, items in post.lists.items():
         o = pre.lists.get(lid)
@@ -443,7 +471,7 @@ def live_frames(ex, fr):
     return fids
 
 
-def havoc_state(C, st, W, tag):
+def havoc_state(C, st, W, tag, visited=None, consts=None):
     "returns a fork of st with everything in W replaced by fresh symbols"
     s = st.fork()
     names = set()
@@ -456,10 +484,22 @@ def havoc_state(C, st, W, tag):
         old = s.heap.get(k)
         if old is not None:
             at = W.at.get(k)
-            if at is not None:
-                # written only at loop-invariant objects: everything else keeps its value (frame)
+            if at is not None and (visited is not None or not any(t is ELEM for t in at)):
+                # written only at loop-invariant objects and/or at the loop element: everything else keeps
+                # its value (frame); elements already visited hold what the body left there
                 arr = old
+                if any(t is ELEM for t in at):
+                    y = z3.Int('y!fr')
+                    cval = (consts or {}).get(k)
+                    if cval is not None:
+                        newv = cval
+                    else:
+                        G = z3.Const(nm('Gv_%s_%s' % (k[0].rsplit('.', 1)[-1], k[1])), old.sort())
+                        newv = z3.Select(G, y)
+                    arr = z3.Lambda([y], z3.If(visited(y), newv, z3.Select(old, y)))
                 for t in at:
+                    if t is ELEM:
+                        continue
                     arr = z3.Store(arr, t, z3.Const(nm('hv_%s' % k[1]), old.sort().range()))
                 s.heap[k] = arr
             else:
@@ -467,6 +507,9 @@ def havoc_state(C, st, W, tag):
         else:
             s.heap.pop(k, None)
     s.ghost['_havoc_names'] = names
+    hk = C.ex.hooks.get('after_havoc')
+    if hk:
+        hk(s, set(W.heap))
     for (fid, name), sample in W.locals.items():
         cur = s.envs.get(fid, {}).get(name)
         if cur is None:
@@ -567,6 +610,18 @@ def eval_spec_exprs(C, node, st, fr, extra_env):
     return out
 
 
+def valid_cheap(st, goal, timeout=2000):
+    "validity from the linear, quantifier-free part of the path condition only (sound: fewer premises)"
+    from .symex import is_cheap
+    s = z3.Solver()
+    s.set('timeout', timeout)
+    for a in st.pc:
+        if is_cheap(a):
+            s.add(a)
+    s.add(z3.Not(goal))
+    return s.check() == z3.unsat
+
+
 def valid(asm, goal, timeout=3000):
     s = z3.Solver()
     s.set('timeout', timeout)
@@ -576,7 +631,7 @@ def valid(asm, goal, timeout=3000):
     return s.check() == z3.unsat
 
 
-def discover_writes(C, run_body, make_head, pre, fr, it_name, rounds=4):
+def discover_writes(C, run_body, make_head, pre, fr, it_name, elem_term=None, rounds=4):
     ex = C.ex
     live = live_frames(ex, fr)
     W = Writes()
@@ -594,10 +649,44 @@ def discover_writes(C, run_body, make_head, pre, fr, it_name, rounds=4):
                 hn |= (fc or set())
         for o in outs:
             if o.kind in ('ok', 'cnt', 'brk', 'ret', 'exc'):
-                changed |= W.merge(diff_state(h0, o.st, live, hn))
+                changed |= W.merge(diff_state(h0, o.st, live, hn, elem_term))
         if not changed:
             return W
     return W
+
+
+def elem_constants(C, W, run_body, make_head, elem_term):
+    "fields written at the loop element whose final value is the same literal on every path of the body"
+    ex = C.ex
+    keys = [k for k, at in W.at.items() if at is not None and any(t is ELEM for t in at)]
+    if not keys:
+        return {}
+    head = make_head(W)
+    with Muted(ex):
+        outs = run_body(head)
+    res = {}
+    for k in keys:
+        val = None
+        ok = True
+        for o in outs:
+            if o.kind not in ('ok', 'cnt'):
+                continue
+            arr = o.st.heap.get(k)
+            if arr is None:
+                ok = False
+                break
+            v = z3.simplify(z3.Select(arr, elem_term))
+            if not (z3.is_int_value(v) or z3.is_true(v) or z3.is_false(v) or z3.is_rational_value(v)):
+                ok = False
+                break
+            if val is None:
+                val = v
+            elif not val.eq(v):
+                ok = False
+                break
+        if ok and val is not None:
+            res[k] = val
+    return res
 
 
 def counter_candidates(C, W, pre, head_of):
@@ -676,8 +765,12 @@ def cut_loop(C, kind, s, st, fr, L=None):
             outs += ex.run_block(s.body, og.st, fr)
         return outs
 
+    elem_term = L.elem(i) if (kind == 'for' and L.distinct and L.pos is not None) else None
+    visited_at = (lambda idx: (lambda y: z3.And(L.mem(y), L.pos(y) < idx))) if elem_term is not None else (lambda idx: None)
+    consts = {}
+
     def make_head(W, invs=(), with_i=True):
-        h = havoc_state(C, pre, W, 'head')
+        h = havoc_state(C, pre, W, 'head', visited_at(i), consts)
         h.assume(i >= 0)
         for lab, f in invs:
             t = f(h, i)
@@ -686,7 +779,9 @@ def cut_loop(C, kind, s, st, fr, L=None):
         return h
 
     # ---- 1. what does the body write?
-    W = discover_writes(C, run_body, lambda w: make_head(w), pre, fr, i)
+    W = discover_writes(C, run_body, lambda w: make_head(w), pre, fr, i, elem_term)
+    if elem_term is not None:
+        consts.update(elem_constants(C, W, run_body, make_head, elem_term))
     # ---- 2. candidate invariants
     cands = counter_candidates(C, W, pre, None)
     hk = ex.hooks.get('loop_candidates')
@@ -720,8 +815,16 @@ def cut_loop(C, kind, s, st, fr, L=None):
                     t = f(o.st, i + 1)
                     if t is None:
                         continue
-                    if not valid(C.assumptions(o.st), t, 1500):
+                    if not valid_cheap(o.st, t):
                         ok = False
+                        if DEBUG:
+                            print('HOUDINI drop', anchor, lab, 'at trace', o.st.trace[-4:])
+                            if _os.environ.get('PYVC_DEBUG') == lab:
+                                from .symex import is_cheap
+                                print('   goal', t)
+                                for a in o.st.pc:
+                                    if is_cheap(a) and ('nD' in str(a) or 'it!' in str(a) or 'len' in str(a)):
+                                        print('   pc', str(a)[:200])
                         break
             if ok:
                 keep.append((lab, f))
@@ -758,7 +861,7 @@ def cut_loop(C, kind, s, st, fr, L=None):
         else:
             results.append(o)
     # ---- 5. exit state
-    ex_head = havoc_state(C, pre, W, 'exit')
+    ex_head = havoc_state(C, pre, W, 'exit', visited_at(i), consts)
     if kind == 'for':
         ex_head.assume(i == L.length)
     else:
@@ -786,6 +889,7 @@ def cut_loop(C, kind, s, st, fr, L=None):
         else:
             exits.append(Out('ok', None, ex_head))
     ex.col.notes.append({'loop': '%s %s' % (fname, anchor), 'inferred': [lab for lab, _ in alive],
+                         'ghost_written': sorted(W.ghost), 'n_candidates': len(cands),
                          'declared': [lab for lab, _ in user], 'writes_heap': sorted('%s.%s' % k for k in W.heap)})
     return results + exits
 
@@ -794,7 +898,7 @@ def _holds_init(C, pre, f):
     t = f(pre, z3.IntVal(0))
     if t is None:
         return True
-    return valid(C.assumptions(pre), t, 1000)
+    return valid_cheap(pre, t)
 
 
 def for_cut(C, s, it, st, fr):
